@@ -294,6 +294,39 @@ func checkC02(ctx *Ctx) {
 		}
 	})
 	rerunDefaultPaths(ctx)
+	setOutOnlyPort(ctx)
+}
+
+// an out-port declared with SetOut only (the command does not name it with {o:..}; it writes the file by its own
+// name): an existing file at that path is an existing output all the same
+func setOutOnlyPort(ctx *Ctx) {
+	d := &Desc{Name: "c02setout", Max: 2, Nodes: []Node{{Name: "src", Kind: "filesource", Paths: []string{"a.txt", "b.txt"}},
+		{Name: "tool", Kind: "proc", Cmd: "( echo RUN >> ../tool.trace ; cat {i:in} > {i:in|basename}.rep )", Outs: map[string]string{"rep": "{i:in}.rep"}},
+		{Name: "next", Kind: "proc", Cmd: "( cat {i:in} > {o:out} )", Outs: map[string]string{"out": "{i:in}.next"}}},
+		Edges: []Edge{{From: "src.out", To: "tool.in"}, {From: "tool.rep", To: "next.in"}}}
+	dir := newDir()
+	defer os.RemoveAll(dir)
+	pre := map[string]string{"a.txt": "a\n", "b.txt": "b\n", "a.txt.rep": "EDITED BY HAND\n"}
+	for p, c := range pre {
+		ioutil.WriteFile(filepath.Join(dir, p), []byte(c), 0644)
+	}
+	before, _ := statOf(filepath.Join(dir, "a.txt.rep"))
+	rr := RunWorkflow(d, RunOpts{Dir: dir})
+	ctx.Res.Eval("existing output of a port declared with SetOut only", true, "setout-only")
+	ctx.Res.Count("port-declared-by-SetOut-only")
+	if rr.Exit != 0 {
+		ctx.Res.Disagree(Violation{What: "SetOut-only workflow failed: " + tail(rr.Stderr), Witness: "setout-only"})
+		return
+	}
+	after, _ := statOf(filepath.Join(dir, "a.txt.rep"))
+	got, _ := readFile(dir, "a.txt.rep")
+	runs, _ := readFile(dir, "tool.trace")
+	if after != before || got != "EDITED BY HAND\n" || strings.Count(runs, "RUN") != 1 {
+		ctx.Res.Violate(Violation{What: fmt.Sprintf("a.txt.rep existed (a port declared with SetOut only): the tool ran %d times for 2 inputs of which 1 had its output, the file now holds %q", strings.Count(runs, "RUN"), got), Class: "c02.reexecuted", Witness: "setout-only"})
+	}
+	if next, ok := readFile(dir, "a.txt.rep.next"); !ok || next != "EDITED BY HAND\n" {
+		ctx.Res.Violate(Violation{What: "the downstream process did not receive the existing file a.txt.rep", Class: "c02.not-passed-on", Witness: "setout-only"})
+	}
 }
 
 func init() { checks["C02"] = checkC02 }
